@@ -237,6 +237,11 @@ def check(a):
         for k, v in r["stats"].get("functions", {}).items():
             functions[k] = functions.get(k, 0) + v
     exhaustive = bool(mains) and all(r["verdict"] == "confirmed" for r in mains) and not harness_errors and not a.only
+    explored = []
+    for r in mains:
+        for smp in r["stats"].get("samples", [])[:1]:
+            explored.append({"explored_case": r["label"], **smp})
+    samples = samples + explored[:10]
     if not samples:
         samples = [{"harness": r["label"], "verdict": r["verdict"]} for r in mains[:3]]
     ev = {
@@ -247,7 +252,7 @@ def check(a):
             "rule": "one evaluation = one execution path of a harness explored by CrossHair (path condition decided by z3; disjoint input classes), "
                     "plus one per direct z3 query; non-trivial = the path satisfied every assumption and reached the deciding assertion "
                     "(counted by the harness epilogue), so each counted case is a distinct class of inputs/steps/schedules on which the real code ran to the oracle",
-            "samples": samples[:12],
+            "samples": samples[:16],
             "exhaustive": exhaustive,
             "traces_validated_against_impl": int(extra.get("traces_validated", 0)),
             "harnesses": {r["label"]: {"verdict": r["verdict"], "role": r["role"], "paths": r["stats"].get("paths"), "reached": r["stats"].get("reached"),
